@@ -159,6 +159,7 @@ def lexer_tables(args):
     if pb.returncode != 0:
         out["errors"].append("lextab does not build: " + (pb.stdout + pb.stderr)[-500:])
         return out
+    os.makedirs(os.path.join(COQ, "Generated"), exist_ok=True)       # ignored by git: absent in a fresh checkout
     gen = os.path.join(COQ, "Generated", "LexGen.v")
     pr = subprocess.run([exe, "/repo/libvore/ast/lexer.go", gen], capture_output=True, text=True)
     if pr.returncode != 0:
